@@ -474,3 +474,124 @@ Example C01_comp_cols_example :
   Shape.exemptions_ok 16 8 [(9, []); (3, [4])] 5 = true /\ Shape.comp_degree 16 [(9, []); (3, [4])] 5 = 124.
 Proof. exact comp_cols_example. Qed.
 Print Assumptions C01_comp_cols_example.
+
+(* ================================================================================================ *)
+(* Round "Lagrange in the model" (Model/StarkLagrange.v, Proofs/StarkLagrangeRows.v, Proofs/StarkLagrange.v).            *)
+(* The existing capstone C01_stark_complete is untouched; the Lagrange capstone is `_partial`: the stages Merkle / FRI /  *)
+(* ce-interpolation / point interpolation are premises (the SAME statements C01_stark_complete discharges from C10, C15,  *)
+(* C09, plus C20's interpolate through distinct points); outside the library: the GKR step hands the same rr to both sides *)
+From VModel Require StarkLagrange EnforceLagrange Composition.
+From VProofs Require StarkLagrangeRows StarkLagrange StarkLagrangeExample CompositionLagrangePoly.
+Local Open Scope nat_scope.
+
+(* (2) row-to-point translation (C17's gap (i)): for the honest kernel column and ANY interpolant Lp of it over the trace domain,
+   C17's hypotheses numer_vanishes and first_cell hold, hence every Lagrange quotient is a polynomial *)
+Theorem C01_lagrange_honest_numer_vanishes : forall (F : Type) (O : FOps F), FLaws O -> forall (n v : nat) (g : F), n = 2 ^ v ->
+  forall rr : list F, length rr = v -> forall Lp : list F,
+  (forall i, i < n -> Composition.peval O Lp (Composition.cpow O g i) = nth i (StarkLagrangeRows.kernel_col O v rr) (fzero O)) ->
+  forall idx j, idx < v -> j < 2 ^ idx ->
+  Composition.peval O (CompositionLagrangePoly.lag_numer_poly O v g Lp rr idx)
+                    (Composition.cpow O (CompositionLagrangePoly.hsub O v g idx) j) = fzero O.
+Proof. exact @StarkLagrangeRows.honest_numer_vanishes. Qed.
+Print Assumptions C01_lagrange_honest_numer_vanishes.
+
+Theorem C01_lagrange_honest_first_cell : forall (F : Type) (O : FOps F), FLaws O -> forall (n v : nat) (g : F), n = 2 ^ v ->
+  forall rr : list F, length rr = v -> forall Lp : list F,
+  (forall i, i < n -> Composition.peval O Lp (Composition.cpow O g i) = nth i (StarkLagrangeRows.kernel_col O v rr) (fzero O)) ->
+  0 < n -> Composition.peval O Lp (fone O) = EnforceLagrange.lag_assertion_value O rr.
+Proof. exact @StarkLagrangeRows.honest_first_cell. Qed.
+Print Assumptions C01_lagrange_honest_first_cell.
+
+Theorem C01_lagrange_honest_term_is_poly : forall (F : Type) (O : FOps F), FLaws O -> forall (n v : nat) (g : F), n = 2 ^ v ->
+  forall rr : list F, length rr = v -> forall Lp : list F,
+  (forall i, i < n -> Composition.peval O Lp (Composition.cpow O g i) = nth i (StarkLagrangeRows.kernel_col O v rr) (fzero O)) ->
+  StarkPoly.primitive_root O g n -> forall idx, idx < v ->
+  exists q, length q = length Lp - 2 ^ idx /\
+    forall x, Composition.peval O (CompositionLagrangePoly.lag_numer_poly O v g Lp rr idx) x
+              = fmul O (fsub O (Composition.cpow O x (2 ^ idx)) (fone O)) (Composition.peval O q x).
+Proof. exact @StarkLagrangeRows.honest_lagrange_term_is_poly. Qed.
+Print Assumptions C01_lagrange_honest_term_is_poly.
+
+(* the DEEP term of the kernel column: (T_l - p_S) = Z_S * quotient; the quotient keeps n coefficients with a zero top one *)
+Theorem C01_lagrange_deep_term : forall (F : Type) (O : FOps F) (L : FLaws O) (interp_pts : list F -> list F -> list F),
+  (forall xs ys, NoDup xs -> length ys = length xs -> length (interp_pts xs ys) <= length xs /\
+     forall m, m < length xs -> peval O (interp_pts xs ys) (nth m xs (fzero O)) = nth m ys (fzero O)) ->
+  forall (n v : nat) (g z : F) (Lp : list F), n = 2 ^ v -> StarkPoly.primitive_root O g n -> z <> fzero O -> length Lp = n -> 1 <= v ->
+  forall lcc,
+  let xs := StarkLagrange.lag_pts O g z v in let lf := StarkLagrange.lag_frame O g v Lp z in
+  (forall x, fmul O (pprod O xs x) (peval O (StarkLagrange.deep_lag O interp_pts lcc Lp xs lf) x)
+             = fmul O (fsub O (peval O Lp x) (peval O (interp_pts xs lf) x)) lcc) /\
+  length (StarkLagrange.deep_lag O interp_pts lcc Lp xs lf) = n /\
+  last (StarkLagrange.deep_lag O interp_pts lcc Lp xs lf) (fzero O) = fzero O.
+Proof.
+  intros F O L ip Hip n v g z Lp Hn Hg Hz HL Hv lcc xs lf. split.
+  - intros x. exact (StarkLagrange.deep_lag_eval O L ip Hip n v g z Lp Hn Hg Hz lcc x).
+  - exact (StarkLagrange.deep_lag_shape O L ip Hip n v g z Lp Hn Hg Hz HL Hv lcc).
+Qed.
+Print Assumptions C01_lagrange_deep_term.
+
+(* (3) the capstone with a Lagrange-kernel column, PARTIAL: stage premises = the Section hypotheses of Proofs/StarkLagrange.v
+   (merkle_complete, fri_complete, interp_pts_spec, interp_complete, coset_off_domain) *)
+Section C01LagrangeCapstone.
+  Context {F : Type} (O : FOps F) (L : FLaws O).
+  Variables (Digest Opening FriProof : Type).
+  Variable commit : list (list F) -> Digest.
+  Variable open_prove : list (list F) -> list F -> Opening.
+  Variable open_ok : Digest -> list F -> list (list F) -> Opening -> bool.
+  Variable fri_prove : list F -> list F -> FriProof.
+  Variable fri_verify : FriProof -> nat -> list F -> list F -> bool.
+  Variable air_eval : F -> list F -> list F -> F.
+  Variable interp_ce : (F -> F) -> list F.
+  Variable interp_pts : list F -> list F -> list F.
+  Variables (n cols ce_size v : nat) (g : F).
+  Variable ce_coset : list F.
+  Variable lde : list F.
+  (* stage premises (C10 / C15 / C20 / C09 / coset) *)
+  Hypothesis merkle_complete : forall (cs : list (list F)) xs, incl xs lde -> NoDup xs -> xs <> [] -> length xs <= 255 ->
+    open_ok (commit cs) xs (map (evals O cs) xs) (open_prove cs xs) = true.
+  Hypothesis fri_complete : forall d xs, length d = n -> last d (fzero O) = fzero O -> incl xs lde -> xs <> [] -> length xs <= 255 ->
+    fri_verify (fri_prove d xs) (n - 2) xs (map (peval O d) xs) = true.
+  Hypothesis interp_pts_spec : forall xs ys, NoDup xs -> length ys = length xs ->
+    length (interp_pts xs ys) <= length xs /\
+    forall m, m < length xs -> peval O (interp_pts xs ys) (nth m xs (fzero O)) = nth m ys (fzero O).
+  Hypothesis interp_complete : forall f Q, length Q <= ce_size -> (forall x, In x ce_coset -> f x = peval O Q x) ->
+    interp_ce f = Q ++ repeat (fzero O) (ce_size - length Q).
+  Hypothesis coset_off_domain : forall x, In x ce_coset -> ~ In x (domain O g n).
+
+  Theorem C01_stark_complete_lagrange_partial : forall (dbg : bool) (lc : @StarkLagrange.LagC F) (cP cV : @Coin F) (lcc : F)
+      (Ts : list (list F)) (Lp : list F) (Qc : list F),
+    n = 2 ^ v -> 2 <= v -> v < 64 -> StarkPoly.primitive_root O g n -> 1 <= cols -> n * cols <= ce_size ->
+    Ts <> [] -> Forall (fun p => length p = n) Ts -> length Lp = n ->
+    length Qc <= n * cols ->
+    (forall x, ~ In x (domain O g n) -> air_eval x (evals O Ts x) (evals O Ts (fmul O x g)) = peval O Qc x) ->
+    length (EnforceLagrange.l_coef (StarkLagrange.lc_t lc)) = v -> length (StarkLagrange.lc_rr lc) = v ->
+    length (EnforceLagrange.l_div (StarkLagrange.lc_t lc)) = v ->
+    (forall idx, idx < v -> nth idx (EnforceLagrange.l_div (StarkLagrange.lc_t lc)) (Enforce.mkD [] [])
+                            = Enforce.mkD [((2 ^ Z.of_nat idx)%Z, fone O)] []) ->
+    (forall i, i < n -> peval O Lp (fpow O g i) = nth i (StarkLagrange.kernel_col O (StarkLagrange.lc_rr lc) v) (fzero O)) ->
+    cV = cP ->
+    ~ In (c_z cP) (domain O g n) -> c_z cP <> fzero O -> fmul O (c_z cP) g <> fzero O ->
+    incl (c_xs cP) lde -> NoDup (c_xs cP) -> c_xs cP <> [] -> length (c_xs cP) <= 255 ->
+    (forall x, In x (c_xs cP) -> ~ In x (StarkLagrange.lag_pts O g (c_z cP) v)) ->
+    exists pf,
+      StarkLagrange.prove_lag O interp_pts Digest Opening FriProof commit open_prove fri_prove air_eval interp_ce
+        (mkParams n g cols false dbg) v lc cP lcc Ts Lp = Done pf /\
+      StarkLagrange.verify_lag O interp_pts Digest Opening FriProof open_ok fri_verify air_eval
+        (mkParams n g cols false dbg) v lc cV lcc pf = StarkLagrange.VAccept.
+  Proof.
+    exact (StarkLagrange.stark_complete_lagrange_partial O L Digest Opening FriProof commit open_prove open_ok fri_prove fri_verify
+             air_eval interp_ce interp_pts n cols ce_size v g ce_coset lde merkle_complete fri_complete interp_pts_spec
+             interp_complete coset_off_domain).
+  Qed.
+End C01LagrangeCapstone.
+Print Assumptions C01_stark_complete_lagrange_partial.
+
+(* (5) non-vacuity: Z/17, n = 8, g = 2, r = (2, 3, 5) *)
+Example C01_lagrange_honest_nonvacuous :
+  (forall idx j, idx < 3 -> j < 2 ^ idx ->
+     Composition.peval StarkExamples.O17 (CompositionLagrangePoly.lag_numer_poly StarkExamples.O17 3 StarkExamples.g17 StarkLagrangeExample.Lp17 StarkLagrangeExample.rr17 idx)
+       (Composition.cpow StarkExamples.O17 (CompositionLagrangePoly.hsub StarkExamples.O17 3 StarkExamples.g17 idx) j) = fzero StarkExamples.O17) /\
+  Composition.peval StarkExamples.O17 StarkLagrangeExample.Lp17 (fone StarkExamples.O17)
+    = EnforceLagrange.lag_assertion_value StarkExamples.O17 StarkLagrangeExample.rr17.
+Proof. split; [exact (proj1 StarkLagrangeExample.lagrange_honest_nonvacuous) | exact (proj1 (proj2 StarkLagrangeExample.lagrange_honest_nonvacuous))]. Qed.
+Print Assumptions C01_lagrange_honest_nonvacuous.
